@@ -557,6 +557,20 @@ fn repo_head() -> String {
         .unwrap_or_default()
 }
 
+/// Workers that were killed (watchdog, memory cap) cannot remove their scratch trees: remove the
+/// trees of processes that no longer exist before starting a batch.
+fn sweep_stale_scratch() {
+    let Ok(rd) = std::fs::read_dir("/dev/shm") else { return };
+    for e in rd.flatten() {
+        let name = e.file_name().to_string_lossy().to_string();
+        let Some(rest) = name.strip_prefix("verif-sim-") else { continue };
+        let Some(pid) = rest.split('-').next().and_then(|p| p.parse::<u32>().ok()) else { continue };
+        if !std::path::Path::new(&format!("/proc/{pid}")).exists() {
+            let _ = std::fs::remove_dir_all(e.path());
+        }
+    }
+}
+
 pub fn cmd_run(a: &[String]) -> i32 {
     let (Some(pid), Some(tier)) = (a.first(), a.get(1)) else {
         eprintln!("usage: sim run <PROP> <quick|thorough>");
@@ -570,6 +584,7 @@ pub fn cmd_run(a: &[String]) -> i32 {
         eprintln!("tier must be quick or thorough");
         return 2;
     }
+    sweep_stale_scratch();
     let verif_seed = env_u64("VERIF_SEED").unwrap_or(DEFAULT_SEED);
     let runs = env_u64("VERIF_RUNS").unwrap_or(if tier == "quick" {
         prop.quick_runs
